@@ -25,4 +25,32 @@ PROPS = {
             "the read theorems assume |history| + n < 2^64 (the count cannot overflow u64); the unrestricted clause is refuted by C13.readv_panics_for_huge_count and recorded in KNOWN_FINDINGS",
         ],
     },
+    "C05": {
+        "runs": [{"vh": "frame", "selftest": True, "shards_quick": 4, "shards_thorough": 16}],
+        "exhaustive_scope": True,
+        "trusted_base": [
+            "Byte model: BytesMut as List UInt8, split_to(n) as (take n, drop n); usize arithmetic as Nat (no overflow possible: at most four 7-bit groups)",
+            "Generated/Consts.lean: REMAINING_LIMIT_* and LEN_LEN_THRESHOLDS_* re-extracted from the four sources on every run (C05.generated_constants)",
+            "packet body readers are NOT modelled (C04): every theorem is for an arbitrary body reader; in the correspondence the model's body parameter is instantiated with what the implementation's bare decoder answered per frame",
+        ],
+        "modelled": [
+            "tokio_util Framed's read loop around Codec::decode/decode_eof (mirrored in the harness, real Codec called)",
+            "tokio AsyncRead::read_buf chunk delivery (in-memory socket handing out one chunk per poll_read)",
+            "BytesMut capacity/reserve behaviour (batch boundaries compared only for bursts <= 8000 bytes)",
+        ],
+        "assumptions": [
+            "chunking independence and 'waits only while incomplete' are proved for body readers that never return InsufficientBytes (Honest); the v5 readers (c5, b5) violate this: recorded finding, witness theorems",
+            "never-panics is decided by the correspondence under catch_unwind (the model is total); b5 unreachable!() recorded finding",
+        ],
+    },
+    "C04": {
+        "runs": [{"vh": "codec", "shards_thorough": 16, "max_parallel": 8, "selftest": True}],
+        "generated_tables": True,
+        "trusted_base": [
+            "Packet values: one Lean type = union of the three Rust packet types; the field-wise maps struct <-> canonical text are harness/src/codec.rs (to_K / from_K), strings are byte lists with the executable validUtf8 predicate (tied to Rust std by every generated string)",
+            "finite code tables (return / reason / QoS codes): tabulated by executing the real code (vh tables -> Generated/Tables.lean) and compared with the model by `decide` on every run; v5 property identifiers: compared exhaustively (256 ids x 13 positions x 2 copies) in the correspondence run",
+        ],
+        "modelled": ["bytes::BytesMut/Bytes buffer semantics (split_to, advance, put_*) as list operations", "Rust std String::from_utf8 acceptance (validUtf8)"],
+        "assumptions": ["max packet size passed to the readers = 2^30; v5 client write with max_size None; two trailing bytes c0 00 follow every produced frame in the decoded stream"],
+    },
 }
